@@ -252,6 +252,9 @@ pub struct Chan {
     /// the holder's commitment seed: ghost knowledge used only by oracles
     pub holder_seed: [u8; 32],
     pub is_ready: bool,
+    /// permanent channel id given at setup (LDK-style flow), if any: once the channel is ready
+    /// requests address it by this id
+    pub perm_id: Option<ChannelId>,
 }
 
 impl Chan {
@@ -749,7 +752,7 @@ impl World {
                 if let Some(i) = self.chans.iter().position(|c| c.id0 == id0) {
                     return Out::Ok(i);
                 }
-                self.chans.push(Chan { id0, spec: spec.clone(), setup, cp, holder_pubkeys, holder_seed, is_ready: false });
+                self.chans.push(Chan { id0, spec: spec.clone(), setup, cp, holder_pubkeys, holder_seed, is_ready: false, perm_id: None });
                 Out::Ok(self.chans.len() - 1)
             }
             Out::Err(e) => Out::Err(e),
@@ -761,7 +764,8 @@ impl World {
         let node = self.node.clone();
         let id0 = self.chans[ci].id0.clone();
         let setup = self.chans[ci].setup.clone();
-        let (r, _) = self.txn(|| call(|| node.setup_channel(id0.clone(), None, setup.clone(), &bitcoin::bip32::DerivationPath::master()).map(|_| ())));
+        let perm = self.chans[ci].perm_id.clone();
+        let (r, _) = self.txn(|| call(|| node.setup_channel(id0.clone(), perm.clone(), setup.clone(), &bitcoin::bip32::DerivationPath::master()).map(|_| ())));
         if r.is_ok() {
             self.chans[ci].is_ready = true;
             // commitment seed may be re-derived at setup: refresh ghost knowledge
@@ -786,7 +790,11 @@ impl World {
 
     pub fn with_chan<T>(&self, ci: usize, f: impl FnOnce(&mut Channel) -> Result<T, Status>) -> Out<T> {
         let node = self.node.clone();
-        let id0 = self.chans[ci].id0.clone();
+        // a ready channel with a permanent id is addressed by it (as a node does after setup)
+        let id0 = match (&self.chans[ci].perm_id, self.chans[ci].is_ready) {
+            (Some(p), true) => p.clone(),
+            _ => self.chans[ci].id0.clone(),
+        };
         self.txn(move || call(move || node.with_channel(&id0, f))).0
     }
 
